@@ -89,7 +89,29 @@ def region_perms(reg, ang, mirror=False):
     for d in range(reg.n_duct):
         duct += [int(x) + d * nd for x in out['ductcell'][d]]
     out['duct'] = np.array(duct)
+    out['unrodded'] = {}
     return out
+
+
+def assembly_perms(a, ang, mirror=False):
+    pm = region_perms(a.rodded, ang, mirror)
+    for reg in a.region:
+        if not reg.is_rodded:
+            pm['unrodded'][reg.name] = unrodded_perms(pm, reg)
+    return pm
+
+
+def plane_recorder(r, store):
+    """on_step callback keeping every assembly's fields at one third, two
+    thirds and the end of the axial mesh."""
+    n = len(r.z)
+    want = sorted(set([max(1, n // 3), max(1, (2 * n) // 3), n - 1]))
+
+    def cb(i):
+        if i in want:
+            store[want.index(i)] = {a.id: final_fields(a)
+                                    for a in r.assemblies}
+    return cb
 
 
 def spec_perm(pm):
@@ -98,9 +120,36 @@ def spec_perm(pm):
             'duct': [int(x) for x in pm['duct']]}
 
 
+def corner_perm(pm_duct):
+    """Permutation of the six hexagon corners that goes with a duct-cell
+    permutation of the pin bundle's wall. Wall cell c of an un-rodded region
+    is centred on the corner that closes side c, like the corner cell that
+    ends side c of the bundle's wall (bundle wall cell (c+1)*per - 1); the
+    wall meshes of both start in the middle of the last of these corners,
+    which is how both are laid on the inter-assembly gap mesh."""
+    nd = len(pm_duct)
+    per = nd // 6
+    p = [(int(pm_duct[(c + 1) * per - 1]) + 1) // per - 1 for c in range(6)]
+    if sorted(p) != list(range(6)):
+        raise ValueError('duct-cell permutation does not permute the '
+                         'corners')
+    return np.array(p)
+
+
+def unrodded_perms(pm, reg):
+    """Permutations for an un-rodded region of the same assembly: its six
+    wall cells (and the six nodes of the six-node model) are centred on the
+    six corners."""
+    p6 = corner_perm(pm['ductcell'][0])
+    n = reg.temp['coolant_int'].size
+    return {'cool': (p6 if n == 6 else np.arange(n)), 'ductcell': [p6],
+            'byp': [], 'pins': None}
+
+
 def final_fields(a):
     reg = a.active_region
-    f = {'cool': reg.temp['coolant_int'].copy(),
+    f = {'rodded': bool(reg.is_rodded), 'region': reg.name,
+         'cool': reg.temp['coolant_int'].copy(),
          'duct': reg.temp['duct_mw'].copy(),
          'surf': reg.temp['duct_surf'].copy()}
     if 'coolant_byp' in reg.temp:
@@ -115,6 +164,14 @@ def final_fields(a):
 def compare(res, name, f0, f1, pm, key):
     """f1 (image problem) must equal f0 moved by the permutation."""
     worst = 0.0
+    if f0['region'] != f1['region'] or f0['cool'].shape != f1['cool'].shape:
+        res.check(name, False, 'image problem is in another axial region '
+                  '(%s vs %s) at the same plane' % (f0['region'],
+                                                     f1['region']), key)
+        return 0.0
+    if not f0['rodded']:
+        pm = pm['unrodded'][f0['region']]
+        res.count(name + '_unrodded_planes')
     worst = max(worst, float(np.max(np.abs(f1['cool'][pm['cool']]
                                            - f0['cool']))))
     for d in range(f0['duct'].shape[0]):
@@ -128,7 +185,7 @@ def compare(res, name, f0, f1, pm, key):
             p = pm['byp'][b]
             worst = max(worst, float(np.max(np.abs(f1['byp'][b][p]
                                                    - f0['byp'][b]))))
-    if 'pin' in f0:
+    if 'pin' in f0 and 'pin' in f1 and pm['pins'] is not None:
         worst = max(worst, float(np.max(np.abs(f1['pin'][pm['pins']]
                                                - f0['pin']))))
     worst = max(worst, abs(f1['peak'] - f0['peak']))
@@ -145,7 +202,8 @@ def run_asm(case, res):
     rng = np.random.default_rng(case['seed'])
     tdep = rng.random() < 0.4
     P, feats = wl.single_assembly(
-        rng, coolant_pool=True, tdep=tdep, max_rings=5, length=0.3, lf=False, regions=False,
+        rng, coolant_pool=True, tdep=tdep, max_rings=5, length=0.3, lf=False,
+        regions=bool(rng.random() < 0.3),
         gap=wl.choose(rng, ['none', 'none', 'flow', 'no_flow',
                             'duct_average']),
         vel=wl.loguniform(rng, 0.1, 5.0))
@@ -153,6 +211,7 @@ def run_asm(case, res):
     sp['shape'] = 'rand'
     sp['comps'] = [1, 2, 3]
     sp['zero_cells'] = []
+    sp['zero_pin_cells'] = []
     sp['total'] = max(sp['total'], 1e4)
     if rng.random() < 0.5:
         wl.add_pin_model(rng, P, 'a', kind='pin')
@@ -161,26 +220,34 @@ def run_asm(case, res):
            'wire': P['types']['a']['wire_direction']}
     with drive.scratch() as d:
         inp, r0 = drive.build(P, d, max_steps=MAX_STEPS)
-        reg = r0.assemblies[0].rodded
+        a0 = r0.assemblies[0]
         perms = {}
         for k in range(1, 6):
-            perms[k] = region_perms(reg, -k * np.pi / 3)
-        pmir = region_perms(reg, 0.0, mirror=True)
-        drive.sweep(r0)
+            perms[k] = assembly_perms(a0, -k * np.pi / 3)
+        pmir = assembly_perms(a0, 0.0, mirror=True)
+        pl0 = {}
+        drive.sweep(r0, on_step=plane_recorder(r0, pl0))
         f0 = final_fields(r0.assemblies[0])
         g0 = r0.core.coolant_gap_temp.copy() if r0.core.model else None
-    spread = float(np.max(f0['cool']) - np.min(f0['cool']))
+        z0 = r0.z.copy()
+    spread = max(float(np.max(f[0]['cool']) - np.min(f[0]['cool']))
+                 for f in pl0.values())
     ks = [1, 2, 3, 4, 5] if case.get('all_k', True) else [1]
     for k in ks:
         Q = copy.deepcopy(P)
         Q['power']['asm']['0']['perm'] = spec_perm(perms[k])
         with drive.scratch() as d:
             inp, r1 = drive.build(Q, d, max_steps=MAX_STEPS)
-            drive.sweep(r1)
+            pl1 = {}
+            drive.sweep(r1, on_step=plane_recorder(r1, pl1))
             f1 = final_fields(r1.assemblies[0])
             g1 = r1.core.coolant_gap_temp.copy() if r1.core.model else None
         compare(res, 'R1_rotated_assembly_fields', f0, f1, perms[k],
                 dict(key, k=k))
+        if len(r1.z) == len(z0) and np.array_equal(r1.z, z0):
+            for n in sorted(pl0):
+                compare(res, 'R1_rotated_assembly_fields', pl0[n][0],
+                        pl1[n][0], perms[k], dict(key, k=k, plane=n))
         if g0 is not None:
             # lone assembly: its gap ring is rotated by k sides as well
             n = len(g0)
@@ -199,9 +266,16 @@ def run_asm(case, res):
                                          else 'counterclockwise')
     with drive.scratch() as d:
         inp, r1 = drive.build(Q, d, max_steps=MAX_STEPS)
-        drive.sweep(r1)
+        pl1 = {}
+        drive.sweep(r1, on_step=plane_recorder(r1, pl1))
         f1 = final_fields(r1.assemblies[0])
     compare(res, 'R2_mirrored_assembly_fields', f0, f1, pmir, key)
+    if len(r1.z) == len(z0) and np.array_equal(r1.z, z0):
+        for n in sorted(pl0):
+            compare(res, 'R2_mirrored_assembly_fields', pl0[n][0], pl1[n][0],
+                    pmir, dict(key, plane=n))
+    for reg in a0.region:
+        res.tag('region:' + ('rodded' if reg.is_rodded else reg.model))
     res.tag('gap=' + P['gap_model'])
     res.tag('wire=' + wd)
     res.tag('n_duct=%d' % feats['n_duct'])
@@ -256,12 +330,17 @@ def run_core(case, res):
     n_ring = case.get('n_ring', 2)
     tdep = rng.random() < 0.4
     gap = wl.choose(rng, ['flow', 'flow', 'no_flow', 'duct_average', 'none'])
+    # the low-flow wall approximation, with flows such that some assemblies
+    # fall under the cut-off and others do not
+    ca = bool(rng.random() < 0.35)
     P, feats = wl.core_problem(rng, n_ring=n_ring, tdep=tdep, gap=gap,
                                empty_frac=(0.25 if rng.random() < 0.7
                                            else 0.0),
                                max_rings=(4 if n_ring == 2 else 3),
-                               length=0.25, lf_frac=0.0, regions_frac=0.0,
-                               dd_frac=0.25, vel_range=(0.3, 5.0))
+                               length=0.25, lf_frac=0.0, regions_frac=0.35,
+                               dd_frac=0.25,
+                               vel_range=((0.03, 5.0) if ca else (0.3, 5.0)),
+                               conv_approx=(1.0 if ca else 0.0))
     if rng.random() < 0.5:
         P['setup']['param_update_tol'] = float(wl.choose(rng, [1e-3, 0.01]))
     k = int(rng.integers(1, 6))
@@ -273,9 +352,16 @@ def run_core(case, res):
         inp, r0 = drive.build(P, d, max_steps=MAX_STEPS)
         perms = {}
         for a in r0.assemblies:
-            perms[a.id] = region_perms(a.rodded, ang)
-        drive.sweep(r0)
+            perms[a.id] = assembly_perms(a, ang)
+        pl0 = {}
+        drive.sweep(r0, on_step=plane_recorder(r0, pl0))
         f0 = {a.id: final_fields(a) for a in r0.assemblies}
+        flags0 = sorted((a.id, bool(a.rodded._conv_approx))
+                        for a in r0.assemblies)
+        for a in r0.assemblies:
+            for reg in a.region:
+                res.tag('region:' + ('rodded' if reg.is_rodded
+                                     else reg.model))
         s0 = ({a.id: gap_sides(r0.core, i)
                for i, a in enumerate(r0.assemblies)}
               if r0.core.model else None)
@@ -299,8 +385,19 @@ def run_core(case, res):
         same_mesh = (len(r1.z) == len(z0) and np.array_equal(r1.z, z0))
         res.check('R0_same_axial_mesh', same_mesh,
                   'rotated core is solved on a different axial mesh', key)
-        drive.sweep(r1)
+        pl1 = {}
+        drive.sweep(r1, on_step=plane_recorder(r1, pl1))
         f1 = {a.id: final_fields(a) for a in r1.assemblies}
+        flags1 = {a.id: bool(a.rodded._conv_approx) for a in r1.assemblies}
+        bad = [(i, f, flags1[int(ppos[i])]) for i, f in flags0
+               if flags1[int(ppos[i])] != f]
+        res.check('R0b_same_wall_treatment', not bad,
+                  'an assembly and its image are not solved with the same '
+                  'wall treatment (low-flow approximation on/off): %r' % bad,
+                  key)
+        res.tag('conv_approx_tripped=%d_of_%d' % (
+            sum(f for _, f in flags0), len(flags0)) if ca else
+            'conv_approx=off')
         s1 = ({a.id: gap_sides(r1.core, i)
                for i, a in enumerate(r1.assemblies)}
               if r1.core.model else None)
@@ -309,6 +406,10 @@ def run_core(case, res):
         j = int(ppos[i])
         compare(res, 'R3_rotated_core_assembly_fields', f0[i], f1[j],
                 perms[i], key)
+        if same_mesh:
+            for n in sorted(pl0):
+                compare(res, 'R3_rotated_core_assembly_fields', pl0[n][i],
+                        pl1[n][j], perms[i], dict(key, plane=n))
         spread = max(spread, float(np.max(f0[i]['cool'])
                                    - np.min(f0[i]['cool'])))
         if s0 is not None:
